@@ -4,7 +4,7 @@
      nanoc <fuel> <front> <later> <sprog> -> exit <code> <binary 0|1> failed=<f>:<n>,... warn=<f,..> | killed | unmodelled | hang
      reft <fuel> <sprog>             -> tests=<f>:<ok|assert|div|stuck|nofuel>:<out-hex>;...  | globals-failed     (Lang/Ref per shadow block)
      apart <sprog>                   -> 1 | 0                                                  (Back/NamesApart.names_apart)
-   sprog = (sprog <prog> (shadows (sh <fn-hex> <skip 0|1> <stmt>) ...)),  prog as in lang_driver.ml *)
+   sprog = (sprog <prog> (shadows (sh <fn-hex> <skip 0|1> <stmt>) ...) [(imported <fn-hex> ...)])   shadows: ALL blocks in source order,  prog as in lang_driver.ml *)
 type sx = A of ostring | L of sx list
 let parse_sx (s : ostring) : sx =
   let n = String.length s in
@@ -74,13 +74,16 @@ let prog_of (x : sx) : program =
           | _ -> failwith "fn") fs;
         pmain = n_of_hex m }
   | _ -> failwith "prog"
+let shadow_of = function
+  | L [A "sh"; A f; A sk; b] -> { sh_fn = n_of_hex f; sh_skip = (sk = "1"); sh_body = stmt_of b }
+  | _ -> failwith "shadow"
 let sprog_of (x : sx) : sprogram =
   match x with
   | L [A "sprog"; p; L (A "shadows" :: shs)] ->
-      { sp_prog = prog_of p;
-        sp_shadows = List.map (function
-          | L [A "sh"; A f; A sk; b] -> { sh_fn = n_of_hex f; sh_skip = (sk = "1"); sh_body = stmt_of b }
-          | _ -> failwith "shadow") shs }
+      { sp_prog = prog_of p; sp_shadows = List.map shadow_of shs; sp_imported = [] }
+  | L [A "sprog"; p; L (A "shadows" :: shs); L (A "imported" :: fs)] ->
+      { sp_prog = prog_of p; sp_shadows = List.map shadow_of shs;
+        sp_imported = List.map (function A f -> n_of_hex f | _ -> failwith "imported") fs }
   | _ -> failwith "sprog"
 
 let names l = String.concat "," (List.map hex_of_n l)
